@@ -152,8 +152,14 @@ def ensures(qual, static_only=False, uses=(), assumed=None, export=True):
     return deco
 
 
-def raises(qual, exc):
-    return _reg("raises", qual, exc=exc)
+def raises(qual, exc, only_if=False):
+    """exceptional postcondition: `exc` escapes iff the clause holds (only_if=True: the clause is necessary, not sufficient)"""
+    def deco(fn):
+        _reg("raises", qual, exc=exc)(fn)
+        if only_if:
+            _c(qual).opts.setdefault("raises_only_if", set()).add(exc)
+        return fn
+    return deco
 
 
 def invariant(qual, loop):
@@ -471,3 +477,9 @@ file_pos = file_content = hash_acc = strlen = strcat = substr = _ghost_rt
 
 def ident(t):
     return t
+
+
+def ghost(qual, before, name, expr):
+    """ghost assignment `name = expr` (expr: Python source over the locals) executed immediately before the first statement whose
+    source text contains `before`; it only gives later hints / invariants a name for an intermediate value"""
+    _c(qual).opts.setdefault("ghosts", []).append((before, name, expr))
